@@ -37,6 +37,12 @@ class Violation(Exception):
         self.owner = signature.split('/')[0]
 
 
+class Abort(Exception):
+    """The history left the domain in which the statement is defined (e.g. a
+    solve on a ray with zero slope sent the lens to infinity); the run ends
+    without a verdict on the remaining steps."""
+
+
 def norm_msg(e):
     s = f'{type(e).__name__}:{e}'
     out = []
@@ -435,6 +441,9 @@ class World:
         m = self.model
         zs = [f(v) for v in self.lens.surface_group.positions]
         zm = m.positions()
+        if not all(map(math.isfinite, zs[1:])):
+            self.probe('abort_solve_degenerate')
+            raise Abort('solve with zero incoming slope: lens at infinity')
         ks = sorted(s['k'] for s in m.solves) if add is None else [add]
         tol = self.ztol()
         self.stats['oracle_checks'] += 1
@@ -1179,6 +1188,8 @@ def run_one(prop, run_seed, run_index, cfg):
             if not w.step(op):
                 ops.pop()
                 nfail += 1
+    except Abort:
+        pass
     except Violation as v:
         if v.owner == prop:
             viol = {'class': v.cls, 'signature': v.signature,
@@ -1207,6 +1218,8 @@ def replay(prop, hist):
     try:
         for i, op in enumerate(hist['ops']):
             w.step(op)
+    except Abort:
+        pass
     except Violation as v:
         if v.owner == prop:
             viol = {'class': v.cls, 'signature': v.signature,
